@@ -4360,6 +4360,648 @@ def gen_kernel_rounds():
     out.append("(* translated functions and their lane counts: " + ", ".join(names) + " *)\n")
     out.append("(* intrinsics that occur: " + ", ".join(sorted(used)) + " *)\n")
     return "".join(out)
+# GenRefImpl.v: the reference implementation (reference_impl/reference_impl.rs), translated statement by statement
+# with the PFn shapes above plus the ones the reference implementation needs:
+#   for i in LO..HI { a[..] = ..; a[..] ^= ..; }      -> fold_left (fun a i => ...) (seq LO (HI-LO)) a
+#   for (c, w) in B.chunks_exact(K).zip(W) { *w = u32::from_le_bytes(c.try_into().unwrap()); }
+#                                                      -> fold_left over seq 0 (min (length B / K) (length W))
+#   debug_assert_eq!(n1, n2)   (leading statements)    -> a separate boolean Definition <name>_debug_assert
+#   let v = <integer expression>                       -> res_val of the integer-formula emitter (casts, shifts)
+#   let mut v = *w ;  *m = v                           -> array copies
+#   f(&mut a, &b, ..)                                  -> let a := f a b .. (callee translated earlier)
+#   a[LO..HI].copy_from_slice(&b)                      -> arr_copy (Base/Arr.v)
+#   struct S { f: T, .. }                              -> Record ; `&self` methods take the record ; S { f: e, .. }
+#   -> usize / u32 results (ChunkState::len, start_flag) go through the integer-formula emitter (res N).
+# Constants (IV, MSG_PERMUTATION, BLOCK_LEN, flags) are the ref_ definitions of GenConsts.v, read from the same file.
+# ---------------------------------------------------------------------------
+def _rs_split_stmts(body, name):
+    """Rust block body -> ([statements], tail expression).  A statement ends at a top-level `;`, or at the closing
+    brace of a top-level `for` block."""
+    stmts, depth, cur = [], 0, ""
+    for ch in body:
+        if ch in "([{":
+            depth += 1
+        elif ch in ")]}":
+            depth -= 1
+            if depth < 0:
+                raise AnchorError(f"{name}: unbalanced brackets")
+        if ch == ";" and depth == 0:
+            stmts.append(cur)
+            cur = ""
+            continue
+        cur += ch
+        if ch == "}" and depth == 0 and re.match(r"\s*for\b", cur):
+            stmts.append(cur)
+            cur = ""
+    return stmts, " ".join(cur.split())
+
+
+def _call_parts(t):
+    """`name(args)` with the final ')' closing the '(' right after the name -> (name, args text), else None"""
+    m = re.match(r"(%s(?:::%s)*)\(" % (_IDENT, _IDENT), t)
+    if not m or not t.endswith(")"):
+        return None
+    depth = 0
+    for j in range(m.end() - 1, len(t)):
+        if t[j] in "([{":
+            depth += 1
+        elif t[j] in ")]}":
+            depth -= 1
+            if depth == 0:
+                return (m.group(1), t[m.end():j]) if j == len(t) - 1 else None
+    return None
+
+
+def _args(text):
+    items = [a.strip() for a in _p_split_top(text, ",")]
+    if items and not items[-1]:
+        items.pop()
+    return items
+
+
+class RStruct:
+    """`struct Name { field: type, .. }` with array ([u8|u32; n]) and integer (u8|u32|u64) fields -> Record"""
+
+    def __init__(self, text, name, prefix, cenv, structs=None):
+        self.name, self.coq = name, prefix + name
+        self.structs = structs or {}
+        body = fn_body(text, r"\bstruct\s+" + name + r"\s*\{", self.coq)
+        self.fields = []          # (field, kind, width-or-None)
+        # field separators: commas outside brackets, `<..>` of generic arguments included
+        body = re.sub(r"<[^<>;]*>", lambda g: g.group(0).replace(",", "\x00"), body)
+        for f in _args(body):
+            f = f.replace("\x00", ",")
+            m = re.fullmatch(r"(%s)\s*:\s*(.+)" % _IDENT, " ".join(f.split()))
+            if not m:
+                raise AnchorError(f"{self.coq}: field {f!r}")
+            fld, ty = m.group(1), m.group(2)
+            ma = re.fullmatch(r"\[\s*(u8|u32)\s*;\s*(\w+)\s*\]", ty)
+            if ma:
+                if not (ma.group(2).isdigit() or ma.group(2) in cenv):
+                    raise AnchorError(f"{self.coq}: array length {ma.group(2)!r}")
+                self.fields.append((fld, "arr", None))
+            elif ty == "CVWords":
+                self.fields.append((fld, "arr", None))
+            elif ty in ("u8", "u32", "u64"):
+                self.fields.append((fld, "word", TYPES[ty]))
+            elif ty == "Platform":
+                self.fields.append((fld, "platform", None))
+            elif ty in self.structs:
+                self.fields.append((fld, ("struct", ty), None))
+            elif re.fullmatch(r"ArrayVec<\s*CVBytes\s*,\s*\{[^{}]*\}\s*>", ty):     # a stack of chaining values
+                self.fields.append((fld, "cvstack", None))
+            else:
+                raise AnchorError(f"{self.coq}: field type {ty!r}")
+
+    def proj(self, f):
+        return f"{self.coq}_{f}"
+
+    def record(self):
+        ty = {"arr": "list N", "word": "N", "platform": "platform", "cvstack": "list (list N)"}
+        rows = ";\n".join(f"  {self.proj(f)} : {self.structs[k[1]].coq if isinstance(k, tuple) else ty[k]}"
+                          for f, k, _ in self.fields)
+        return f"Record {self.coq} := {self.coq}_mk {{\n{rows} }}.\n"
+
+
+class RFn(PFn):
+    """A function of reference_impl.rs.  fns: name -> dict(coq, params=[kinds], ret) of the functions translated so far
+    (ret: 'arr' | ('struct', S) | 'res' | ('inplace', index of the &mut parameter)); methods: (S, name) -> the same."""
+
+    def __init__(self, coqname, text, header_re, consts, cenv, fns, structs=None, self_struct=None, methods=None,
+                 platform_methods=None, impl_struct=None):
+        self.cenv, self.fns, self.structs, self.self_struct = cenv, fns, structs or {}, self_struct
+        self.platform_methods, self.impl_struct = platform_methods or {}, impl_struct or self_struct
+        self.methods = methods if methods is not None else {}
+        self.asserts, self.loop_assigned, self.in_loop = [], None, False
+        callees = {"g": fns["g"]["coq"]} if "g" in fns else {}
+        super().__init__("rs", coqname, text, header_re, consts, callees)
+
+    # ---- signature ----
+    def _param(self, p):
+        if p == "&self":
+            if not self.self_struct or self.order:
+                raise self.err("unexpected &self")
+            self.kind["self"] = "struct"
+            self.order.append("self")
+            return
+        m = re.fullmatch(r"(%s)\s*:\s*(.+)" % _IDENT, p)
+        if m:
+            v, ty = m.group(1), m.group(2).strip()
+            if re.fullmatch(r"\[\s*u32\s*;\s*\d+\s*\]", ty):            # array by value
+                self._decl(v, "arr")
+                self.order.append(v)
+                return
+            ms = re.fullmatch(r"&\s*(mut\s+)?\[\s*(u8|u32)\s*\]", ty)     # slice
+            if ms:
+                self._decl(v, "arr", mutable=bool(ms.group(1)))
+                self.order.append(v)
+                return
+            if ty == "&CVBytes":
+                self._decl(v, "arr")
+                self.order.append(v)
+                return
+            if ty == "Platform":
+                self._decl(v, "platform")
+                self.order.append(v)
+                return
+        super()._param(p)
+
+    # ---- expressions ----
+    def idx(self, ast):
+        if ast[0] == "bin" and ast[1] in ("+", "*") and any(
+                a[0] == "var" and self.kind.get(a[1]) == "nat" for a in (ast[2], ast[3])):
+            return f"({self.idx(ast[2])} {ast[1]} {self.idx(ast[3])})%nat"
+        return super().idx(ast)
+
+    def tenv(self):
+        return {v: self.width[v] for v in self.kind if self.kind[v] == "word" and v in self.width}
+
+    def wexpr(self, t, want):
+        """integer-valued expression text -> term of type N"""
+        t = t.strip()
+        mf = re.fullmatch(r"self\.(%s)" % _IDENT, t)
+        if mf and self.kind.get("self") == "struct":
+            t = mf.group(1)
+            if t not in self.self_fields or self.kind.get(t) != "word":
+                raise self.err(f"self.{t} is not an integer field")
+            return t
+        if re.fullmatch(_IDENT, t) and self.kind.get(t) == "word":
+            return t
+        if re.fullmatch(r"\d+", t):
+            return str(int(t))
+        return f"(res_val {emit(parse_expr(t, self.name), self.tenv(), self.cenv, self.name, want)})"
+
+    def call(self, f, argtexts, skip=None):
+        """arguments of a call of the translated function f (dict), by the kinds of its parameters"""
+        if len(argtexts) != len(f["params"]):
+            raise self.err(f"call of {f['coq']}: {len(argtexts)} arguments for {len(f['params'])} parameters")
+        out = []
+        for i, (a, k) in enumerate(zip(argtexts, f["params"])):
+            if i == skip:
+                continue
+            if k == "arr":
+                out.append(self.aexpr(a))
+            elif k == "word":
+                out.append(self.wexpr(a, f["widths"][i]))
+            elif k == "nat":
+                out.append(self.idx(parse_expr(a, self.name)))
+            elif k == "platform" and re.fullmatch(_IDENT, a) and self.kind.get(a) == "platform":
+                out.append(a)
+            elif k == "platform" and re.fullmatch(r"Platform::detect\(\)", a):
+                # run-time CPU detection: its result is a parameter of the translated function
+                if "detected_platform" in self.kind:
+                    raise self.err("detected_platform shadows a variable")
+                self.detects = True
+                out.append("detected_platform")
+            else:
+                raise self.err(f"call of {f['coq']}: parameter kind {k!r} (argument {a!r})")
+        return out
+
+    def aexpr(self, t):
+        """array-valued expression text -> term of type list N"""
+        t = re.sub(r"^&\s*(mut\s+)?", "", t.strip())
+        mf = re.fullmatch(r"self\.(%s)" % _IDENT, t)
+        if mf and self.kind.get("self") == "struct":
+            f = mf.group(1)
+            if f not in self.self_fields or self.kind.get(f) != "arr":
+                raise self.err(f"self.{f} is not an array field")
+            return f
+        if re.fullmatch(_IDENT, t):
+            return self.arr_name(("var", t))
+        m = re.fullmatch(r"(%s)\[(\d+)\.\.(\d+)\]\.try_into\(\)\.unwrap\(\)" % _IDENT, t)
+        if m:
+            lo, hi = int(m.group(2)), int(m.group(3))
+            if hi < lo:
+                raise self.err(f"range {t!r}")
+            return f"(arr_slice {self.arr_name(('var', m.group(1)))} {lo}%nat {hi - lo}%nat)"
+        m = re.fullmatch(r"(.+)\.(%s)\(\)" % _IDENT, t)
+        if m and not _call_parts(t):
+            recv, s = self.sexpr(m.group(1))
+            meth = self.methods.get((s, m.group(2)))
+            if not meth or meth["ret"] != "arr" or meth["params"] != [("struct", s)]:
+                raise self.err(f"method call {t!r}")
+            return f"({meth['coq']} {recv})"
+        cp = _call_parts(t)
+        if cp and cp[0] in self.fns and self.fns[cp[0]]["ret"] == "arr":
+            f = self.fns[cp[0]]
+            return "(" + " ".join([f["coq"]] + self.call(f, _args(cp[1]))) + ")"
+        if cp and cp[0] in self.fns and self.fns[cp[0]]["ret"] == "newtype":      # struct Hash([u8; OUT_LEN])
+            return self.aexpr(cp[1])
+        if t.startswith("*") and re.fullmatch(_IDENT, t[1:].strip()):            # copy of an array behind a reference
+            return self.arr_name(("var", t[1:].strip()))
+        m = re.fullmatch(r"\[\s*0\s*;\s*(\w+)\s*\]", t)
+        if m:
+            return self.zeros(m.group(1))
+        pm = self.platform_call(t)
+        if pm and pm[0]["ret"] == "arr":
+            return "(" + " ".join([pm[0]["coq"], "platform"] + self.call(pm[0], pm[1])) + ")"
+        raise self.err(f"cannot translate array expression {t!r}")
+
+    def zeros(self, n):
+        if n.isdigit():
+            return f"(repeat 0 {int(n)}%nat)"
+        if n in self.cenv:
+            return f"(repeat 0 (N.to_nat {self.cenv[n]}))"
+        raise self.err(f"array length {n!r}")
+
+    def platform_call(self, t):
+        """`self.platform.method(args)` -> (method dict, [argument texts])"""
+        m = re.fullmatch(r"self\.platform\s*\.\s*(%s\(.*\))" % _IDENT, t)
+        cp = _call_parts(m.group(1)) if m else None
+        if not cp or cp[0] not in self.platform_methods or self.kind.get("platform") != "platform":
+            return None
+        return self.platform_methods[cp[0]], _args(cp[1])
+
+    def sexpr(self, t):
+        """struct-valued expression text -> (term, struct name)"""
+        t = t.strip()
+        cp = _call_parts(t)
+        if cp and cp[0] in self.fns and isinstance(self.fns[cp[0]]["ret"], tuple) and self.fns[cp[0]]["ret"][0] == "struct":
+            f = self.fns[cp[0]]
+            return "(" + " ".join([f["coq"]] + self.call(f, _args(cp[1]))) + ")", f["ret"][1]
+        m = re.fullmatch(r"(%s) \{(.*)\}" % _IDENT, t)
+        if m and (m.group(1) in self.structs or (m.group(1) == "Self" and self.impl_struct)):
+            st = self.structs[self.impl_struct if m.group(1) == "Self" else m.group(1)]
+            given = {}
+            for item in _args(m.group(2)):
+                mi = re.fullmatch(r"(%s)\s*(?::\s*(.+))?" % _IDENT, item)
+                if not mi or mi.group(1) in given:
+                    raise self.err(f"struct literal field {item!r}")
+                given[mi.group(1)] = mi.group(2) if mi.group(2) is not None else mi.group(1)
+            if set(given) != {f for f, _, _ in st.fields}:
+                raise self.err(f"struct literal {t!r}: fields {sorted(given)}")
+            vals = []
+            for f, k, w in st.fields:
+                if k == "arr":
+                    vals.append(self.aexpr(given[f]))
+                elif k == "word":
+                    vals.append(self.wexpr(given[f], w))
+                elif isinstance(k, tuple) and k[0] == "struct":
+                    term, got = self.sexpr(given[f])
+                    if got != k[1]:
+                        raise self.err(f"struct literal field {f}: {given[f]!r} is not a {k[1]}")
+                    vals.append(term)
+                elif k == "cvstack" and re.fullmatch(r"ArrayVec::new\(\)", given[f]):
+                    vals.append("[]")
+                elif isinstance(k, str) and re.fullmatch(_IDENT, given[f]) and self.kind.get(given[f]) == k:
+                    vals.append(given[f])
+                else:
+                    raise self.err(f"struct literal field {f}: {given[f]!r}")
+            return "(" + " ".join([st.coq + "_mk"] + vals) + ")", st.name
+        raise self.err(f"cannot translate struct expression {t!r}")
+
+    def nexpr(self, ast):
+        """length expression -> term of type nat"""
+        if ast[0] == "num":
+            return f"{ast[1]}%nat"
+        if ast[0] == "meth" and ast[2] == "len" and not ast[3] and ast[1][0] == "var":
+            return f"(length {self.arr_name(ast[1])})"
+        if ast[0] == "bin" and ast[1] in ("*", "+"):
+            return f"({self.nexpr(ast[2])} {ast[1]} {self.nexpr(ast[3])})%nat"
+        raise self.err(f"length expression {ast!r}")
+
+    # ---- statements ----
+    def let(self, v, term):
+        if self.loop_assigned is not None:
+            self.loop_assigned.append(v)
+        super().let(v, term)
+
+    def _decl(self, v, kind, width=None, mutable=False):
+        if self.in_loop:
+            raise self.err(f"declaration of {v} inside a loop body")
+        if v in getattr(self, "self_fields", ()):
+            raise self.err(f"{v} shadows a field of self")
+        super()._decl(v, kind, width, mutable)
+
+    def loop(self, var, count_term, start, body_stmts):
+        """fold_left over seq: the body may assign to one mutable array only"""
+        if self.in_loop:
+            raise self.err("nested loop")
+        if var in self.kind or var in self.consts:
+            raise self.err(f"loop variable {var} shadows a variable")
+        saved_lines, self.lines, self.loop_assigned = self.lines, [], []
+        self.kind[var] = "nat"
+        self.in_loop = True
+        try:
+            for b in body_stmts:
+                self.stmt(b)
+        finally:
+            self.in_loop = False
+            del self.kind[var]
+        body, assigned = self.lines, set(self.loop_assigned)
+        self.lines, self.loop_assigned = saved_lines, None
+        if len(assigned) != 1 or not body:
+            raise self.err(f"loop body must assign to exactly one array (assigns {sorted(assigned)})")
+        a = assigned.pop()
+        if a not in self.mut:
+            raise self.err(f"loop assigns to {a}, which is not mutable")
+        inner = "\n".join("    " + l for l in body)
+        self.let(a, f"fold_left (fun ({a} : list N) ({var} : nat) =>\n{inner}\n      {a}) (seq {start}%nat {count_term}) {a}")
+
+    def stmt(self, s):
+        s = " ".join(s.split())
+        if s.startswith("#[rustfmt::skip] "):
+            s = s[len("#[rustfmt::skip] "):]
+        pe = lambda t: parse_expr(t, self.name)
+        # debug_assert_eq!(n1, n2): only before any other statement
+        m = re.fullmatch(r"debug_assert_eq!\((.*)\)", s)
+        if m:
+            if self.lines or self.in_loop:
+                raise self.err("debug_assert_eq! after other statements")
+            ab = _args(m.group(1))
+            if len(ab) != 2:
+                raise self.err(f"{s!r}")
+            if ".len()" in m.group(1):
+                self.asserts.append(f"Nat.eqb {self.nexpr(pe(ab[0]))} {self.nexpr(pe(ab[1]))}")
+            else:
+                self.asserts.append(f"N.eqb {self.wexpr(ab[0], 64)} {self.wexpr(ab[1], 64)}")
+            return
+        # for i in LO..HI { .. }
+        m = re.fullmatch(r"for (%s) in (\d+)\.\.(\d+) \{(.*)\}" % _IDENT, s)
+        if m:
+            lo, hi = int(m.group(2)), int(m.group(3))
+            if hi < lo:
+                raise self.err(f"range of {s!r}")
+            body, tail = _rs_split_stmts(m.group(4), self.name)
+            if tail:
+                raise self.err(f"loop body ends in an expression: {tail!r}")
+            return self.loop(m.group(1), f"{hi - lo}%nat", lo, body)
+        # for (chunk, word) in B.chunks_exact(K).zip(W) { *word = u32::from_le_bytes(chunk.try_into().unwrap()); }
+        m = re.fullmatch(r"for \((%s), (%s)\) in (%s)\.chunks_exact\((\d+)\)\.zip\((%s)\) \{ \*(%s) = "
+                         r"u32::from_le_bytes\((%s)\.try_into\(\)\.unwrap\(\)\); \}" % ((_IDENT,) * 3 + (_IDENT,) * 3), s)
+        if m:
+            cv, wv, b, k, w, wv2, cv2 = m.groups()
+            k = int(k)
+            if (cv, wv) != (cv2, wv2) or cv == wv or k == 0 or self.in_loop:
+                raise self.err(f"zip loop {s!r}")
+            for x in (cv, wv):
+                if x in self.kind or x in self.consts:
+                    raise self.err(f"loop variable {x} shadows a variable")
+            bs, ws = self.arr_name(("var", b)), self.arr_name(("var", w))
+            if w not in self.mut:
+                raise self.err(f"zip loop writes through {w}, which is not mutable")
+            # [u8; 4]::try_from(chunk).unwrap() needs chunks of exactly 4 bytes: the slice has the chunk length k
+            return self.let(w, f"fold_left (fun ({ws} : list N) (i : nat) =>\n"
+                               f"      arr_set {ws} i (le_load32 (arr_slice {bs} ({k} * i)%nat {k}%nat))) "
+                               f"(seq 0%nat (Nat.min (Nat.div (length {bs}) {k}%nat) (length {ws}))) {ws}")
+        # let mut v = *w
+        m = re.fullmatch(r"let (mut )?(%s) = \*(%s)" % (_IDENT, _IDENT), s)
+        if m:
+            term = self.arr_name(("var", m.group(3)))
+            self._decl(m.group(2), "arr", mutable=bool(m.group(1)))
+            return self.let(m.group(2), term)
+        # let mut v = [0; LEN]  /  let mut v = self.field
+        m = re.fullmatch(r"let (mut )?(%s) = (\[\s*0\s*;\s*[A-Za-z_]\w*\s*\]|self\.%s)" % (_IDENT, _IDENT), s)
+        if m and (m.group(3).startswith("[") or self.kind.get(m.group(3)[5:]) == "arr"):
+            term = self.aexpr(m.group(3))
+            self._decl(m.group(2), "arr", mutable=bool(m.group(1)))
+            return self.let(m.group(2), term)
+        # self.platform.method(&mut a, ..)
+        pm = self.platform_call(s)
+        if pm and isinstance(pm[0]["ret"], tuple) and pm[0]["ret"][0] == "inplace":
+            f, args = pm
+            mi = f["ret"][1]
+            mm = re.fullmatch(r"&mut (%s)" % _IDENT, args[mi]) if mi < len(args) else None
+            if not mm:
+                raise self.err(f"call {s!r}")
+            v = mm.group(1)
+            self.arr_name(("var", v))
+            self.assigned(v, ("none",))
+            rest = self.call(f, args, skip=mi)
+            rest.insert(mi, v)
+            return self.let(v, " ".join([f["coq"], "platform"] + rest))
+        # *m = v
+        m = re.fullmatch(r"\*(%s) = (%s)" % (_IDENT, _IDENT), s)
+        if m:
+            v = m.group(1)
+            if self.kind.get(v) != "arr" or v not in self.mut:
+                raise self.err(f"assignment through {v}")
+            return self.let(v, self.arr_name(("var", m.group(2))))
+        # a[LO..HI].copy_from_slice(&b)   (either bound may be omitted)
+        m = re.fullmatch(r"(%s)\[(\d*)\.\.(\d*)\]\.copy_from_slice\(&?(%s)\)" % (_IDENT, _IDENT), s)
+        if m:
+            v, lo, hi, b = m.groups()
+            self.arr_name(("var", v))
+            self.assigned(v, ("none",))
+            lo_t = f"{int(lo)}%nat" if lo else "0%nat"
+            hi_t = f"{int(hi)}%nat" if hi else f"(length {v})"
+            return self.let(v, f"arr_copy {v} {lo_t} {hi_t} {self.arr_name(('var', b))}")
+        # f(.., &mut a, ..)
+        cp = _call_parts(s)
+        if cp and cp[0] in self.fns and isinstance(self.fns[cp[0]]["ret"], tuple) and self.fns[cp[0]]["ret"][0] == "inplace":
+            f = self.fns[cp[0]]
+            args, mi = _args(cp[1]), f["ret"][1]
+            mm = re.fullmatch(r"&mut (%s)" % _IDENT, args[mi]) if mi < len(args) else None
+            if mm:
+                v = mm.group(1)
+                self.arr_name(("var", v))
+                self.assigned(v, ("none",))
+                rest = self.call(f, args, skip=mi)
+                rest.insert(mi, v)
+                return self.let(v, " ".join([f["coq"]] + rest))
+        # let v = <integer expression>
+        m = re.fullmatch(r"let (%s) = ([^\[*].*)" % _IDENT, s)
+        if m and not _call_parts(m.group(2)) and "::" not in m.group(2):
+            ast = pe(m.group(2))
+            w = width_of(ast, self.tenv())
+            if w is None:
+                raise self.err(f"cannot infer the type of {s!r}")
+            term = f"res_val {emit(ast, self.tenv(), self.cenv, self.name, w)}"
+            self._decl(m.group(1), "word", w)
+            return self.let(m.group(1), term)
+        return super().stmt(s)
+
+    def translate(self):
+        self.self_fields = []
+        ty = {"arr": "list N", "nat": "nat", "word": "N", "platform": "platform"}
+        sig, kinds, widths = [], [], []
+        for v in self.order:
+            if v == "self":
+                st = self.structs[self.self_struct]
+                sig.append(f"(self : {st.coq})")
+                kinds.append(("struct", st.name))
+                widths.append(None)
+            else:
+                sig.append(f"({v} : {ty[self.kind[v]]})")
+                kinds.append(self.kind[v])
+                widths.append(self.width.get(v))
+        sig = " ".join(sig)
+        mut_params = [v for v in self.order if v in self.mut]
+        if "self" in self.order:
+            st = self.structs[self.self_struct]
+            for f, k, w in st.fields:
+                if re.search(r"\bself\.%s\b" % f, self.body):
+                    self._decl(f, k, w)
+                    self.let(f, f"{st.proj(f)} self")
+            self.self_fields = [f for f, _, _ in st.fields]
+            prelude, self.lines = self.lines, []
+        else:
+            prelude = []
+        stmts, tail = _rs_split_stmts(self.body, self.name)
+        for s in stmts:
+            if not s.strip():
+                raise self.err("empty statement")
+            self.stmt(s)
+        ret = " ".join(self.ret.split())
+        if ret == "":
+            if tail or len(mut_params) != 1:
+                raise self.err(f"expected one mutable parameter and no result (tail {tail!r})")
+            result, rty, rkind = self.arr_name(("var", mut_params[0])), "list N", ("inplace", self.order.index(mut_params[0]))
+        elif re.fullmatch(r"-> \[(u8|u32); [^\]]+\]", ret) or ret in ("-> CVBytes", "-> CVWords") or (
+                ret == "-> Hash" and self.fns.get("Hash", {}).get("ret") == "newtype"):
+            result, rty, rkind = self.aexpr(tail), "list N", "arr"
+        elif re.fullmatch(r"-> (%s)" % _IDENT, ret) and (ret[3:] in self.structs or (ret == "-> Self" and self.impl_struct)):
+            want = self.impl_struct if ret == "-> Self" else ret[3:]
+            result, s = self.sexpr(tail)
+            if s != want:
+                raise self.err(f"result {tail!r} is not a {want}")
+            rty, rkind = self.structs[s].coq, ("struct", s)
+        elif ret in ("-> usize", "-> u32", "-> u8"):
+            w = TYPES[ret[3:]]
+            tenv = self.tenv()
+            m = re.fullmatch(r"if (.+) \{ (.+) \} else \{ (.+) \}", tail)
+            if m:
+                pe = lambda t: parse_expr(t, self.name)
+                result = (f"b <- {emit_bool(pe(m.group(1)), tenv, self.cenv, self.name)} ;;\n"
+                          f"  if (b : bool) then {emit(pe(m.group(2)), tenv, self.cenv, self.name, w)} "
+                          f"else {emit(pe(m.group(3)), tenv, self.cenv, self.name, w)}")
+            else:
+                result = emit(parse_expr(tail, self.name), tenv, self.cenv, self.name, w)
+            rty, rkind = "res N", "res"
+        else:
+            raise self.err(f"result type {ret!r}")
+        lines = prelude + self.lines
+        text = ""
+        if getattr(self, "detects", False):
+            sig += " (detected_platform : platform)"
+            kinds.append("platform")
+            widths.append(None)
+        if self.asserts:
+            text += (f"Definition {self.name}_debug_assert {sig} : bool :=\n" + "".join(l + "\n" for l in prelude)
+                     + "  " + " && ".join(self.asserts) + ".\n\n")
+        text += f"Definition {self.name} {sig} : {rty} :=\n" + "".join(l + "\n" for l in lines) + f"  {result}.\n"
+        self.sig = {"coq": self.name, "params": kinds, "widths": widths, "ret": rkind}
+        return text
+
+
+def gen_refimpl():
+    out = [HEADER.replace("NArith List.", "NArith List Bool.").replace(
+        "Base.MachInt.", "Base.MachInt Base.Word Base.Arr.\nFrom V Require Import gen.GenConsts.")]
+    ref = strip_comments(src("reference_impl/reference_impl.rs"))
+    P = "refsrc_"
+    # the tables and constants the translated bodies mention are GenConsts' ref_ definitions (same file, same run);
+    # their declared shapes are checked here
+    find1(r"\bconst\s+MSG_PERMUTATION\s*:\s*\[\s*usize\s*;\s*16\s*\]\s*=", ref, "reference_impl MSG_PERMUTATION: [usize; 16]")
+    find1(r"\bconst\s+IV\s*:\s*\[\s*u32\s*;\s*8\s*\]\s*=", ref, "reference_impl IV: [u32; 8]")
+    consts = {"IV": "ref_IV", "MSG_PERMUTATION": "ref_MSG_PERMUTATION"}
+    cenv = {"BLOCK_LEN": "ref_BLOCK_LEN", "OUT_LEN": "ref_OUT_LEN", "KEY_LEN": "ref_KEY_LEN", "CHUNK_LEN": "ref_CHUNK_LEN"}
+    for c in ("CHUNK_START", "CHUNK_END", "PARENT", "ROOT", "KEYED_HASH", "DERIVE_KEY_CONTEXT", "DERIVE_KEY_MATERIAL"):
+        find1(r"\bconst\s+" + c + r"\s*:\s*u32\s*=", ref, "reference_impl " + c + ": u32")
+        cenv[c] = "ref_flag_" + c
+    for c in ("BLOCK_LEN", "OUT_LEN", "KEY_LEN", "CHUNK_LEN"):
+        find1(r"\bconst\s+" + c + r"\s*:\s*usize\s*=", ref, "reference_impl " + c + ": usize")
+
+    fns, methods, structs = {}, {}, {}
+    out.append("(* ---- reference_impl/reference_impl.rs: free functions ---- *)\n")
+    for fname in ("g", "round", "permute", "compress", "first_8_words", "words_from_little_endian_bytes"):
+        f = RFn(P + fname, ref, r"\bfn\s+" + fname + r"\s*\(", consts, cenv, fns)
+        out.append(f.translate())
+        fns[fname] = f.sig
+
+    out.append("(* ---- struct Output, struct ChunkState and their expression-bodied methods ---- *)\n")
+    for s in ("Output", "ChunkState"):
+        structs[s] = RStruct(ref, s, P, cenv)
+        out.append(structs[s].record())
+    for s, meths in (("Output", ("chaining_value",)), ("ChunkState", ("len", "start_flag"))):
+        impl = fn_body(ref, r"\bimpl\s+" + s + r"\s*\{", "impl " + s)
+        for mname in meths:
+            f = RFn(P + s + "_" + mname, impl, r"\bfn\s+" + mname + r"\s*\(", consts, cenv, fns, structs, s, methods)
+            out.append(f.translate())
+            methods[(s, mname)] = f.sig
+
+    out.append("(* ---- parent_output, parent_cv ---- *)\n")
+    for fname in ("parent_output", "parent_cv"):
+        f = RFn(P + fname, ref, r"\bfn\s+" + fname + r"\s*\(", consts, cenv, fns, structs, None, methods)
+        out.append(f.translate())
+        fns[fname] = f.sig
+    return "\n".join(out)
+
+
+# ---------------------------------------------------------------------------
+# GenLibSmall.v: the small expression-bodied functions of src/lib.rs the models Model/RsChunk.v / RsHasher.v mirror by
+# hand (properties C01 / C02), translated with the shapes of RFn: struct Output / ChunkState (records, the `platform`
+# field is Model/Platform.v's record), Output::chaining_value / root_hash / root_output_block (which platform function
+# with which arguments), ChunkState::new / start_flag, parent_node_output; and platform::le_bytes_from_words_32.
+# `self.platform.compress_in_place(&mut cv, ..)` -> let cv := p_compress_in_place platform cv .. ; the order of the
+# parameters of Platform::compress_in_place / compress_xof is anchored in src/platform.rs.
+# ---------------------------------------------------------------------------
+def _platform_method(plat_impl, name, want_params, want_ret, coq, ret):
+    ptext, rtext = _fn_header(plat_impl, r"\bpub\s+fn\s+" + name + r"\s*\(", "Platform::" + name)
+    got = [" ".join(a.split()) for a in _args(ptext)]
+    if got != want_params or " ".join(rtext.split()) != want_ret:
+        raise AnchorError(f"Platform::{name}: signature {got!r} {rtext!r}")
+    return {"coq": coq, "params": ["arr", "arr", "word", "word", "word"], "widths": [None, None, 8, 64, 8], "ret": ret}
+
+
+def gen_lib_small():
+    out = [HEADER.replace("NArith List.", "NArith List Bool.").replace(
+        "Base.MachInt.", "Base.MachInt Base.Word Base.Arr.\nFrom V Require Import gen.GenConsts Model.Platform.")]
+    lib = strip_comments(src("src/lib.rs"))
+    plat = strip_comments(src("src/platform.rs"))
+    P = "lib_"
+    find1(r"\btype\s+CVWords\s*=\s*\[\s*u32\s*;\s*8\s*\]\s*;", lib, "lib.rs type CVWords = [u32; 8]")
+    find1(r"\btype\s+CVBytes\s*=\s*\[\s*u8\s*;\s*32\s*\]\s*;", lib, "lib.rs type CVBytes = [u8; 32]")
+    find1(r"\bpub\s+struct\s+Hash\s*\(\s*\[\s*u8\s*;\s*OUT_LEN\s*\]\s*\)\s*;", lib, "lib.rs struct Hash([u8; OUT_LEN])")
+    cenv = {"BLOCK_LEN": "rs_BLOCK_LEN", "OUT_LEN": "rs_OUT_LEN", "KEY_LEN": "rs_KEY_LEN", "CHUNK_LEN": "rs_CHUNK_LEN"}
+    for c in ("BLOCK_LEN", "OUT_LEN", "KEY_LEN", "CHUNK_LEN"):
+        find1(r"\bconst\s+" + c + r"\s*:\s*usize\s*=", lib, "lib.rs " + c + ": usize")
+    for c in ("CHUNK_START", "CHUNK_END", "PARENT", "ROOT", "KEYED_HASH", "DERIVE_KEY_CONTEXT", "DERIVE_KEY_MATERIAL"):
+        find1(r"\bconst\s+" + c + r"\s*:\s*u8\s*=", lib, "lib.rs " + c + ": u8")
+        cenv[c] = "rs_flag_" + c
+
+    out.append("(* ---- src/platform.rs ---- *)\n")
+    f = PFn("rs", P + "le_bytes_from_words_32", plat, r"\bpub\s+fn\s+le_bytes_from_words_32\s*\(", {}, {})
+    out.append(f.translate())
+    fns = {"Hash": {"ret": "newtype"},
+           "platform::le_bytes_from_words_32": {"coq": P + "le_bytes_from_words_32", "params": ["arr"], "widths": [None],
+                                                 "ret": "arr"}}
+    pimpl = fn_body(plat, r"\bimpl\s+Platform\s*\{", "impl Platform")
+    tail_params = ["block: &[u8; BLOCK_LEN]", "block_len: u8", "counter: u64", "flags: u8"]
+    pmeths = {
+        "compress_in_place": _platform_method(pimpl, "compress_in_place", ["&self", "cv: &mut CVWords"] + tail_params, "",
+                                              "p_compress_in_place", ("inplace", 0)),
+        "compress_xof": _platform_method(pimpl, "compress_xof", ["&self", "cv: &CVWords"] + tail_params, "-> [u8; 64]",
+                                         "p_compress_xof", "arr"),
+    }
+
+    out.append("(* ---- src/lib.rs: struct Output, struct ChunkState ---- *)\n")
+    structs, methods = {}, {}
+    for s in ("Output", "ChunkState"):
+        structs[s] = RStruct(lib, s, P, cenv)
+        out.append(structs[s].record())
+    for s, meths in (("Output", ("chaining_value", "root_hash", "root_output_block")), ("ChunkState", ("new", "start_flag"))):
+        impl = fn_body(lib, r"\bimpl\s+" + s + r"\s*\{", "impl " + s)
+        for mname in meths:
+            f = RFn(P + s + "_" + mname, impl, r"\bfn\s+" + mname + r"\s*\(", {}, cenv, fns, structs,
+                    None if mname == "new" else s, methods, pmeths, impl_struct=s)
+            out.append(f.translate())
+            if mname == "new":
+                fns[s + "::new"] = f.sig
+            else:
+                methods[(s, mname)] = f.sig
+
+    out.append("(* ---- src/lib.rs: parent_node_output ---- *)\n")
+    f = RFn(P + "parent_node_output", lib, r"\bfn\s+parent_node_output\s*\(", {}, cenv, fns, structs, None, methods, pmeths)
+    out.append(f.translate())
+
+    out.append("(* ---- src/lib.rs: struct Hasher, Hasher::new_internal (Platform::detect() is the extra parameter) ---- *)\n")
+    structs["Hasher"] = RStruct(lib, "Hasher", P, cenv, structs)
+    out.append(structs["Hasher"].record())
+    impl = fn_body(lib, r"\bimpl\s+Hasher\s*\{", "impl Hasher")
+    f = RFn(P + "Hasher_new_internal", impl, r"\bfn\s+new_internal\s*\(", {}, cenv, fns, structs, None, methods, pmeths,
+            impl_struct="Hasher")
+    out.append(f.translate())
+    return "\n".join(out)
 
 
 def write_if_changed(path, text):
@@ -4477,6 +5119,7 @@ GENERATORS = [("GenConsts.v", gen_consts), ("GenFormulas.v", gen_formulas), ("Ge
               ("GenDispatch.v", gen_dispatch),
               ("GenAsmFrames.v", gen_asm_frames),
               ("GenApi.v", gen_api), ("GenB3sum.v", gen_b3sum_literals), ("GenPortable.v", gen_portable), ("GenCHasherSmall.v", gen_c_hasher_small),
+              ("GenRefImpl.v", gen_refimpl), ("GenLibSmall.v", gen_lib_small),
               ("GenCounters.v", gen_counters),
               ("GenRounds.v", gen_kernel_rounds)]
 
